@@ -24,16 +24,18 @@ from ..core import Machinery
 from ..rigs import script_rig as R
 
 INVARIANTS = ['TypeOK', 'InvOrder', 'InvPerRank', 'InvNoneSkipped', 'InvFailPre', 'InvExitCode',
-              'InvPostNeedsExec', 'InvBarrier', 'InvEnv', 'InvDescribedEnv', 'InvLaunch', 'InvOutFiles', 'InvAgree',
+              'InvPostNeedsExec', 'InvBarrier', 'InvEnv', 'InvDescribedEnv', 'InvLaunch', 'InvOutFiles', 'InvStartup',
+              'InvGpuEnv', 'InvAgree',
               'InvProgress']
 DEVS = ['DevEnvUnescaped', 'DevIgnorePreFail', 'DevRetAfterPost', 'DevErrDirFromOut',
-        'DevNamedEnvLast']
+        'DevNamedEnvLast', 'DevStartupAbortsOthers', 'DevGpuWholeOnly']
 
 
 # ------------------------------------------------------------------------------
 def cfgset(ranks='1..2', pre=2, post=1, prel='{0}', postl='{0}', sync='BOOLEAN',
-           argv='{<<"plain">>}', env='{<<>>}', omp='{FALSE}', gpr='{0}', out='{"default"}',
-           err='{"default"}', lm=None, pre_set=None, nenv='{FALSE}', envk=None):
+           argv='{<<"plain">>}', env='{<<>>}', omp='{FALSE}', gq='{0}', gtype='{""}',
+           out='{"default"}', err='{"default"}', lm=None, pre_set=None, nenv='{FALSE}', envk=None,
+           sto='{FALSE}', svc='{FALSE}', cfgpre='{FALSE}', prof='{FALSE}'):
     '''TLA+ set expression of task shapes (see ScriptOps.tla for the fields);
        envk: set of key-kind sequences for the environment ev (default: all fresh)'''
     lm    = lm or '(IF n = 1 THEN {"fork", "mpi"} ELSE {"mpi"})'
@@ -41,16 +43,25 @@ def cfgset(ranks='1..2', pre=2, post=1, prel='{0}', postl='{0}', sync='BOOLEAN',
     envk  = envk or '{[i \\in 1 .. Len(ev) |-> "fresh"]}'
     return ('UNION { UNION { { [ranks |-> n, lm |-> lm, pre |-> p, post |-> q, prel |-> a, '
             'postl |-> b, sync |-> s, argv |-> av, env |-> ev, envk |-> ek, nenv |-> ne, '
-            'omp |-> om, gpr |-> g, out |-> o, err |-> oe] : '
+            'omp |-> om, gq |-> g, gtype |-> gt, out |-> o, err |-> oe, sto |-> st, svc |-> sv, '
+            'cfgpre |-> cp, prof |-> pf] : '
             'lm \\in %s, p \\in %s, q \\in SeqsUpTo(Entries(n), %d), a \\in %s, b \\in %s, '
-            's \\in %s, av \\in %s, ek \\in %s, ne \\in %s, om \\in %s, g \\in %s, o \\in %s, '
-            'oe \\in %s } : ev \\in %s } : n \\in %s }'
-            % (lm, pre_s, post, prel, postl, sync, argv, envk, nenv, omp, gpr, out, err, env, ranks))
+            's \\in %s, av \\in %s, ek \\in %s, ne \\in %s, om \\in %s, g \\in %s, gt \\in %s, '
+            'o \\in %s, oe \\in %s, st \\in %s, sv \\in %s, cp \\in %s, pf \\in %s } '
+            ': ev \\in %s } : n \\in %s }'
+            % (lm, pre_s, post, prel, postl, sync, argv, envk, nenv, omp, gq, gtype, out, err,
+               sto, svc, cfgpre, prof, env, ranks))
 
 
 _ONE  = dict(ranks='{1}', pre=0, post=0, sync='{FALSE}', lm='{"fork"}')
-_RES  = dict(pre_set='{<<>>, <<GEntry>>, <<REntry({0})>>}', post=0, sync='{FALSE}',
-             omp='BOOLEAN', gpr='0..2')
+# GPU environment: share / number of GPUs per rank x GPU type x what else makes the
+# script switch per rank (OpenMP export, per-rank pre_exec), every launcher
+_RES  = dict(pre_set='{<<>>, <<REntry({0})>>}', post=0, sync='{FALSE}',
+             omp='BOOLEAN', gq='{0, 1, 2, 4, 8}', gtype='{"", "CUDA", "ROCm"}')
+# description / configuration attributes that add lines to the exec script only
+# when set, on every rank of single- and multi-rank tasks
+_OPT  = dict(pre_set='{<<>>, <<GEntry>>}', post=0, sto='BOOLEAN', svc='BOOLEAN',
+             cfgpre='BOOLEAN', prof='BOOLEAN', nenv='BOOLEAN')
 # named environment x described keys it also defines / the agent has and it lacks
 _NENV = dict(pre=0, post=0, sync='{FALSE}', nenv='BOOLEAN',
              env='SeqsUpTo({"plain", "space"}, 2)', envk='[1 .. Len(ev) -> KeyKinds]')
@@ -62,13 +73,17 @@ _IO   = dict(pre_set='{<<>>, <<GEntry>>}', post=0, sync='{FALSE}', out=_KINDS, e
 # of dimensions that do not interact in the scripts
 SLICES = {
     'quick': {
-        'ctl'   : cfgset(pre=2, post=1),
+        'ctl1'  : cfgset(ranks='{1}', pre=2, post=1),
+        'ctl2'  : cfgset(ranks='{2}', pre=2, post=0, sync='{FALSE}'),
+        'ctl2p' : cfgset(ranks='{2}', pre=1, post=1, sync='{FALSE}'),
+        'ctl2s' : cfgset(ranks='{2}', pre=2, post=0, sync='{TRUE}'),
         'launch': cfgset(pre=1, post=0, prel='0..1', postl='0..1', sync='{FALSE}'),
         'argv'  : cfgset(argv='SeqsUpTo(Classes, 2)', **_ONE),
         'env'   : cfgset(env='SeqsUpTo(Classes, 2)', **_ONE),
         'res'   : cfgset(**_RES),
         'io'    : cfgset(**_IO),
         'nenv'  : cfgset(**_NENV),
+        'opt'   : cfgset(sync='{FALSE}', **_OPT),
     },
     'thorough': {
         'ctl1'  : cfgset(ranks='{1}', pre=3, post=2),
@@ -79,8 +94,11 @@ SLICES = {
         'env'   : cfgset(env='SeqsUpTo(Classes, 2)', **_ONE),
         'envarg': cfgset(env='SeqsUpTo(Alarmed, 1)', argv='SeqsUpTo(Alarmed, 1)', **_ONE),
         'res'   : cfgset(**_RES),
-        'io'    : cfgset(gpr='0..1', **_IO),
+        'io'    : cfgset(gq='{0, 4}', gtype='{"CUDA"}', **_IO),
         'nenv'  : cfgset(**dict(_NENV, pre_set='{<<>>, <<GEntry>>}')),
+        'opt'   : cfgset(omp='BOOLEAN', **_OPT),
+        'optgpu': cfgset(pre=0, post=0, sync='{FALSE}', sto='BOOLEAN', cfgpre='BOOLEAN',
+                         gq='{0, 2, 4}', gtype='{"", "CUDA"}', out=_KINDS),
     },
 }
 
@@ -129,7 +147,7 @@ def features(run):
     cfg, F, xrc = run
     fs = {'ranks%d' % cfg['ranks'], 'lm:' + cfg['lm'], 'sync%d' % cfg['sync'],
           'prel%d' % cfg['prel'], 'postl%d' % cfg['postl'], 'omp%d' % cfg['omp'],
-          'gpr%d' % cfg['gpr'], 'io:%s/%s/%s%d' % (cfg['out'], cfg['err'], cfg['lm'], cfg['ranks']),
+          'gpu:%d/%s/%s%d' % (cfg['gq'], cfg['gtype'], cfg['lm'], cfg['ranks']), 'io:%s/%s/%s%d' % (cfg['out'], cfg['err'], cfg['lm'], cfg['ranks']),
           'argc%d' % len(cfg['argv']),
           'envc%d' % len(cfg['env']), 'xrc:%s' % ('ok' if not any(xrc) else 'nonzero')}
     for sig in ('pre', 'post'):
@@ -141,7 +159,8 @@ def features(run):
     for i, c in enumerate(cfg['env']):
         fs.add('env[%d]:%s' % (i, c))
         fs.add('envk[%d]:%s/nenv%d/%s%d' % (i, cfg['envk'][i], cfg['nenv'], cfg['lm'], cfg['ranks']))
-    fs.add('nenv%d/%s%d' % (cfg['nenv'], cfg['lm'], cfg['ranks']))
+    for k in ('nenv', 'sto', 'svc', 'cfgpre', 'prof'):
+        fs.add('%s%d/%s%d' % (k, cfg[k], cfg['lm'], cfg['ranks']))
     for f in F:
         fs.add('fail:%s[%d]@%d/%d' % (f['sig'], f['i'], f['r'], cfg['ranks']))
     if not F:
@@ -190,6 +209,8 @@ def build_cases(runs, rng, per_data_run):
                 kw['probe'] = 'c10_exe_py'
             if cfg['omp']:
                 kw['cpr'] = rng.choice([1, 2, 4])
+            if cfg['gq']:
+                kw['gbase'] = rng.choice([0, 0, 1, 4])
             cases.append(R.make_case('task.%06d' % len(cases), cfg, F, xrc, rng, counters, **kw))
     return cases
 
@@ -197,6 +218,9 @@ def build_cases(runs, rng, per_data_run):
 # ------------------------------------------------------------------------------
 ENV_UNESCAPED = 'environment value with a double quote or a trailing / doubled backslash'
 NAMED_ENV_KEY = 'named environment and a described key it defines or its activation unsets'
+GPU_SHARE     = 'ranks sharing a GPU (fractional gpus_per_rank)'
+GPU_WHOLE     = 'whole GPUs per rank or none'
+STARTUP_MULTI = 'startup_timeout set on a multi-rank task'
 MIXED_IO      = 'exactly one of td.stdout / td.stderr is an absolute path'
 ANY_TASK      = 'every task'
 OTHER         = 'task without hostile environment value'
@@ -214,6 +238,10 @@ def classify(case, clause):
         return NAMED_ENV_KEY
     if (cfg['out'] == 'abs') != (cfg.get('err', cfg['out']) == 'abs'):
         return MIXED_IO
+    if clause.startswith('C10.Gpu'):
+        return GPU_SHARE if 0 < cfg.get('gq', 0) < 4 else GPU_WHOLE
+    if cfg.get('sto') and cfg['ranks'] > 1:
+        return STARTUP_MULTI
     return OTHER
 
 
@@ -275,7 +303,8 @@ def run(chk, tier, seed):
     # ---- 2. deviation sensitivity of the model's invariants ------------------------
     if not quick:
         small = {'ctl': cfgset(pre=1, post=1), 'env': SLICES['quick']['env'],
-                 'io': SLICES['quick']['io'], 'nenv': SLICES['quick']['nenv']}
+                 'io': SLICES['quick']['io'], 'nenv': SLICES['quick']['nenv'],
+                 'res': SLICES['quick']['res'], 'opt': SLICES['quick']['opt']}
         for dev in DEVS:
             r2 = tlc.run('Script', 'MC', 'MC.cfg', workers=workers, timeout=900,
                          extra_files=mc_files(small, devs=[dev]))
